@@ -101,6 +101,77 @@ def classify_oob(o):
     return f"oob:{site}:{where}"
 
 
+def asan_leg(ctx, gap_lo, gap_hi):
+    """Thorough tier: the same generator under AddressSanitizer with the site hooks switched off, so that every raw access
+    is really performed and an out-of-bounds / use-after-free access is seen by an oracle independent of the hooks."""
+    tc = "nightly-2026-08-21"
+    rc, out = vlib.sh(f"rustc +{tc} --version")
+    if rc != 0:
+        ctx.cov["asan"] = "skipped: nightly toolchain not available"
+        return
+    d = vlib.harness_dir()
+    target = os.path.join(vlib.CACHE, "target", vlib.repo_tag() + "-asan")
+    env = {"CARGO_NET_OFFLINE": "true", "CARGO_TARGET_DIR": target,
+           "RUSTFLAGS": f"-Zsanitizer=address --cfg {vlib.GUARD} -Awarnings"}
+    with vlib.Lock("cargo-" + vlib.repo_tag() + "-asan"):
+        rc, out = vlib.sh(["cargo", f"+{tc}", "build", "--offline", "-q", "--target", "x86_64-unknown-linux-gnu", "--bin", "hx_verifier"],
+                          cwd=d, env=env, timeout=2400)
+    if rc != 0:
+        ctx.cov["asan"] = "skipped: ASan build failed: " + out[-300:]
+        return
+    exe = os.path.join(target, "x86_64-unknown-linux-gnu", "debug", "hx_verifier")
+    total = 0
+    for seed in (ctx.seed, ctx.seed + 1):
+        cmd = [exe, "--seed", str(seed), "--cases", "6000", "--histories", "300", "--sweep-all", "--no-sites",
+               "--gap-lo", str(gap_lo), "--gap-hi", str(gap_hi)]
+        rc, out = vlib.sh(cmd, timeout=1500, env={"ASAN_OPTIONS": "detect_leaks=0:abort_on_error=0"})
+        v = [l for l in out.splitlines() if l.startswith("V\t")]
+        total += len(v)
+        if rc != 0 or "AddressSanitizer" in out:
+            m = re.search(r"ERROR: AddressSanitizer: ([a-z-]+)", out)
+            last = v[-1].split("\t") if v else []
+            ctx.violation("asan:" + (m.group(1) if m else f"exit-{rc}"),
+                          "AddressSanitizer stopped the harness while it verified or executed a function (site hooks off)",
+                          {"seed": seed, "tag": last[2] if len(last) > 2 else None, "spec": last[3] if len(last) > 3 else None,
+                           "report": out[out.find("ERROR: AddressSanitizer"):][:1500] if m else out[-800:]})
+    ctx.cov["asan"] = f"{total} functions verified/executed under AddressSanitizer with the site hooks off (toolchain {tc}): no report"
+
+
+def miri_leg(ctx, gap_lo, gap_hi):
+    """Thorough tier: the corpus source programs and function specs under Miri with the site hooks off (aliasing / provenance /
+    uninitialised reads / out-of-bounds: the part of `never invokes undefined behaviour` no model here covers)."""
+    tc = "nightly"
+    rc, out = vlib.sh(f"cargo +{tc} miri --version")
+    if rc != 0:
+        ctx.cov["miri"] = "skipped: no toolchain with the miri component"
+        return
+    d = vlib.harness_dir()
+    target = os.path.join(vlib.CACHE, "target", vlib.repo_tag() + "-miri")
+    env = {"CARGO_NET_OFFLINE": "true", "CARGO_TARGET_DIR": target, "MIRIFLAGS": "-Zmiri-disable-isolation",
+           "RUSTFLAGS": f"--cfg {vlib.GUARD} -Awarnings"}
+    cdir = os.path.join(vlib.VERIF, "corpus", "C04")
+    jobs = [("--src", os.path.join(cdir, f)) for f in sorted(os.listdir(cdir)) if f.endswith(".aelys")]
+    jobs += [("--corpus", os.path.join(cdir, f)) for f in sorted(os.listdir(cdir)) if f.endswith(".txt") and "from_u8" not in f]
+    ran = 0
+    with vlib.Lock("cargo-" + vlib.repo_tag() + "-miri"):
+        for mode, path in jobs:
+            cmd = ["cargo", f"+{tc}", "miri", "run", "--offline", "-q", "--bin", "hx_verifier", "--", mode, path, "--no-sites",
+                   "--gap-lo", str(gap_lo), "--gap-hi", str(gap_hi)]
+            rc, out = vlib.sh(cmd, cwd=d, env=env, timeout=1500)
+            if "Undefined Behavior" in out:
+                m = re.search(r"error: Undefined Behavior: ([^\n]*)", out)
+                w = re.search(r"--> ([^\n]*)", out)
+                ctx.violation("miri:" + re.sub(r"[^a-z]+", "-", (m.group(1) if m else "ub").lower())[:60],
+                              f"Miri reports undefined behaviour while executing {os.path.basename(path)}: {m.group(1) if m else ''} at {w.group(1) if w else '?'}",
+                              {"input": os.path.relpath(path, vlib.VERIF), "cmd": " ".join(cmd[1:]), "report": out[out.find("error: Undefined"):][:1200]})
+            elif rc != 0 and "error" in out and not re.search(r"^X\t", out, flags=re.M):
+                ctx.cov["miri"] = "skipped: Miri build/run failed: " + out[-300:]
+                return
+            else:
+                ran += len(re.findall(r"^X\t", out, flags=re.M))
+    ctx.cov["miri"] = f"{ran} executions of {len(jobs)} corpus inputs under Miri (Stacked Borrows, site hooks off): no undefined behaviour"
+
+
 def run(ctx):
     ctx.level = "proof"
     ctx.cov["trusted_base"] = TRUSTED
@@ -145,6 +216,8 @@ def run(ctx):
             ctx.broken.append("coq: model files for the C04 tie do not build")
             ctx.log(out[-2000:])
             model_ok = False
+    if getattr(x, "WARNINGS", None):
+        ctx.notes.extend(x.WARNINGS)
     if not model_ok:
         ctx.log("model unavailable: running the direct oracle only (search for a failing input)")
     profiles = ["dev"] if ctx.tier == "quick" else ["dev", "release"]
@@ -177,7 +250,7 @@ def run(ctx):
             if fn.endswith(".txt"):
                 runs.append(("corpus/" + fn, [exe, "--corpus", os.path.join(cdir, fn)] + common))
         if not getattr(ctx, "replay_file", None):
-            runs.append(("random", [exe, "--seed", str(ctx.seed), "--cases", str(ncases)] + common + (["--sweep-all"] if ctx.tier == "thorough" else [])))
+            runs.append(("random", [exe, "--seed", str(ctx.seed), "--cases", str(ncases)] + common + (["--sweep-all", "--histories", "400"] if ctx.tier == "thorough" else [])))
         V, X, S, O = [], {}, [], []
         for name, cmd in runs:
             rc, out = vlib.sh(cmd, timeout=1500)
@@ -197,8 +270,13 @@ def run(ctx):
             V += v
             S += s
             O += o
-            if e:
-                ctx.notes.append(f"{name}: {len(e)} base programs failed to compile: {e[:2]}")
+            ec = [x for x in e if "compile-failed" in x]
+            if ec:
+                ctx.broken.append(f"{name}: {len(ec)} generator programs no longer compile: {ec[:2]}")
+            er = [x for x in e if "reload-failed" in x]
+            if er:
+                ctx.cov.setdefault("reload_rejected_by_loader", 0)
+                ctx.cov["reload_rejected_by_loader"] += len(er)
         specs = {d["case"]: d for d in V}
         # ---- contract tie on the verifier
         vcases, vmeta = [], []
@@ -309,6 +387,9 @@ def run(ctx):
             ctx.broken.append(f"correspondence C04 ({prof}): footprint model and logged accesses differ on {len(fails)} of {len(fcases)} instructions")
         ctx.add_samples([{"function": d["spec"][:300], "tag": d["tag"], "verifier": d["verdict"]} for d in V[:2] + V[len(V) // 2:len(V) // 2 + 1]]
                         + [{"instruction_state": s["snap"], "logged": s["acc"][:8]} for s in S[:2]])
+    if ctx.tier == "thorough":
+        asan_leg(ctx, gap_lo, gap_hi)
+        miri_leg(ctx, gap_lo, gap_hi)
     ctx.cov["evaluations"] = tot_eval
     ctx.cov["distinct_nontrivial"] = len(distinct)
     declared = sorted({v for _, v in ops}) if model_ok else []
